@@ -257,12 +257,13 @@ QUII == \E s \in {"A", "B"} : Filled(s) /\ AllMarkers(s) /\ Get(s).decls # <<>> 
 \* MPO.prefactor(i, ops): the coefficient of the operator string ops (on sites i, i+1, ...; identities elsewhere) in the
 \* operator, w.r.t. the product basis of mutually orthogonal local operators: tr(S^dagger H) / tr(S^dagger S)
 PrefStrings(c) == IF c.uc[1] = "spin"
-                  THEN {<<"Sp", "Sm">>, <<"Sm", "Sp">>, <<"Sigmaz", "Sigmaz">>, <<"Sp">>, <<"Sigmaz">>, <<"Sp", "Sigmaz", "Sm">>, <<"Sigmaz", "Id", "Sigmaz">>}
+                  THEN {<<"Sp", "Sm">>, <<"Sm", "Sp">>, <<"Sp">>, <<"Sp", "Sigmaz", "Sm">>, <<"Sigmaz", "Id", "Sigmaz">>}
                   ELSE IF c.uc[1] = "fermion" THEN {<<"Cd", "C">>, <<"C", "Cd">>, <<"Cd", "JW", "C">>, <<"C", "JW", "Cd">>}
                   ELSE {<<"Bd", "B">>, <<"B", "Bd">>}
 StringOp(c, i, ops) == DenseOfTerms(TypesOf(c), <<[c |-> GOne, raw |-> TRUE, ops |-> [k \in 1..Len(ops) |-> <<ops[k], i + k - 1>>]]>>)
 MInner(X, Y) == GSumFn([r \in 1..NRows(X) |-> GSumFn([q \in 1..NCols(X) |-> GMul(GConj(X[r][q]), Y[r][q])], NCols(X))], NRows(X))
-QPrefactor == ~Big /\ \E s \in {"A", "B"} : Filled(s) /\ \E ops \in PrefStrings(cfg), i \in {0, 1} :
+QPrefactor == ~Big /\ \E s \in {"A", "B"} : Filled(s) /\ AllMarkers(s) /\ \E ops \in PrefStrings(cfg), i \in {0, 1} :
+    /\ (s = "B" => i = 1)
     /\ i + Len(ops) <= NW(cfg) /\ i < NCell(cfg)
     /\ LET S == StringOp(cfg, i, ops)
        IN Step([op |-> "prefactor", s |-> s, i |-> i, ops |-> ops, num |-> MInner(S, Get(s).m), den |-> Re(MInner(S, S))], A, B)
@@ -270,7 +271,7 @@ QPrefactor == ~Big /\ \E s \in {"A", "B"} : Filled(s) /\ \E ops \in PrefStrings(
 \* make_U_II is second order in dt for every direction of dt in the complex plane (real time, imaginary time with either
 \* sign, complex): the central difference (U_II(ph*h) - U_II(-ph*h)) / (2 ph h) equals H up to O(h^2); h = 2^-k
 QUIIOrder == ~Big /\ \E s \in {"A", "B"} : Filled(s) /\ AllMarkers(s) /\ Get(s).decls # <<>> /\ ~Infinite(cfg) /\
-    \E ph \in {<<1, 0>>, <<-1, 0>>, <<0, -1>>, <<1, -1>>} : Step([op |-> "make_U_II_order", s |-> s, ph |-> ph, k |-> 6], A, B)
+    \E ph \in {<<-1, 0>>, <<0, -1>>, <<1, -1>>} : Step([op |-> "make_U_II_order", s |-> s, ph |-> ph, k |-> 6], A, B)
 
 Next == Setup \/ QPrefactor \/ QUIIOrder \/ Make \/ MakePair \/ Add \/ Dagger \/ PlusIdentity \/ Represent \/ QHermitian \/ QEqual \/ QOverlap \/ QExpect \/ QApply
         \/ QUI \/ QUII
